@@ -181,6 +181,74 @@ M('C17', 'mask-all-hash-bits', PGP, "                    signature_issues &= ~Se
   "                    signature_issues &= ~(SecurityIssues.HashFunctionNotCollisionResistant | SecurityIssues.NoSelfSignature)", 'C17.5')
 M('C17', 'issues-only-soundness', PGP, "                issues = signature_issues | subkey_issues", "                issues = subkey_issues | subkey_issues", 'C17.5')
 M('C17', 'issues-xor', PGP, "                issues = signature_issues | subkey_issues", "                issues = signature_issues ^ subkey_issues", 'C17')
+_EXPIRED = "        expires = self.expires_at\n        if expires is not None:\n            return expires <= datetime.now(timezone.utc)\n\n        return False"
+# ---- second round: kinds the rewritten rules could have stopped seeing (cached state, `or` for `|`, short-circuits that skip
+#      a source, subset tests, default arguments, selectors defined through one another) - each must be exit 1, never exit 2
+M('C17', 'bool-any-good', TY, _BOOL, "        return next(self.good_signatures, None) is not None", 'C17.2')
+M('C17', 'bool-not-generator', TY, _BOOL, "        return not self.bad_signatures", 'C17.2')
+M('C17', 'bool-first-bad-only', TY, _BOOL, "        first = next(iter(self._subjects), None)\n        return first is None or not (first.issues and first.issues.causes_signature_verify_to_fail)", 'C17.2')
+M('C17', 'bool-nonempty-and-all', TY, "        return all(\n            sigsub.issues is SecurityIssues.OK", "        return bool(self._subjects) and all(\n            sigsub.issues is SecurityIssues.OK", 'C17.2')
+M('C17', 'good-subset-of-advisory', TY, _GOOD,
+  "        from .constants import SecurityIssues\n        tolerated = SecurityIssues.HashFunctionNotCollisionResistant | SecurityIssues.AsymmetricKeyLengthIsTooShort\n        yield from (sigsub for sigsub in self._subjects if sigsub.issues in tolerated)", 'C17.2')
+M('C17', 'bad-only-wrongsig', TY, _BAD,
+  "        from .constants import SecurityIssues\n        yield from (sigsub for sigsub in self._subjects if SecurityIssues.WrongSig in sigsub.issues)", 'C17.2')
+T('C17', 'twin-bool-no-bad', TY, _BOOL, "        return next(self.bad_signatures, None) is None")
+T('C17', 'twin-bool-not-list-bad', TY, _BOOL, "        return not list(self.bad_signatures)")
+T('C17', 'twin-bool-count-good', TY, _BOOL, "        return len(list(self.good_signatures)) == len(self._subjects)")
+T('C17', 'twin-bool-empty-shortcut', TY, "        return all(\n            sigsub.issues is SecurityIssues.OK", "        return not self._subjects or all(\n            sigsub.issues is SecurityIssues.OK")
+T('C17', 'twin-good-via-mask', TY, _GOOD,
+  "        from .constants import SecurityIssues\n        failing = SecurityIssues.WrongSig | SecurityIssues.Expired | SecurityIssues.Disabled | SecurityIssues.Invalid | SecurityIssues.NoSelfSignature\n        yield from (sigsub for sigsub in self._subjects if not (sigsub.issues & failing))")
+M('C17', 'and-or-instead-of-plus', TY, "        self._subjects += other._subjects\n        return self", "        self._subjects = self._subjects or other._subjects\n        return self", 'C17.2')
+M('C17', 'default-arg-zero', TY, "    def add_sigsubj(self, signature, by, subject=None, issues=None):", "    def add_sigsubj(self, signature, by, subject=None, issues=0):", 'C17.4')
+M('C01', 'default-arg-zero', TY, "    def add_sigsubj(self, signature, by, subject=None, issues=None):", "    def add_sigsubj(self, signature, by, subject=None, issues=0):", 'C01.4')
+M('C17', 'default-or-ok', TY, "        if issues is None:\n            from .constants import SecurityIssues\n            issues = SecurityIssues(0xFF)\n",
+  "        from .constants import SecurityIssues\n        issues = issues or SecurityIssues.OK\n", 'C17.4')
+M('C17', 'pred-mask-joined-with-or', CO, _PRED,
+  "        return bool(self & (SecurityIssues.WrongSig or SecurityIssues.Expired or SecurityIssues.Disabled or SecurityIssues.Invalid or SecurityIssues.NoSelfSignature))", 'C17.1')
+M('C17', 'pred-superset-test', CO, _PRED,
+  "        failing = SecurityIssues.WrongSig | SecurityIssues.Expired | SecurityIssues.Disabled | SecurityIssues.Invalid | SecurityIssues.NoSelfSignature\n        return (self & failing) == failing", 'C17.1')
+M('C17', 'pred-value-le-mask', CO, _PRED,
+  "        failing = SecurityIssues.WrongSig | SecurityIssues.Expired | SecurityIssues.Disabled | SecurityIssues.Invalid | SecurityIssues.NoSelfSignature\n        return 0 < self.value <= failing.value", 'C17.1')
+M('C17', 'pred-shortcut-ok-members', CO, _PRED,
+  "        if SecurityIssues.Revoked in self:\n            return False\n" + _PRED, 'C17.1')
+M('C17', 'issues-joined-with-or', PGP, "                issues = signature_issues | subkey_issues", "                issues = signature_issues or subkey_issues", 'C17')
+M('C17', 'soundness-skipped-when-self-verifying', PGP, "                subkey_issues = self.check_soundness(self_verifying)\n",
+  "                subkey_issues = SecurityIssues.OK if self_verifying else self.check_soundness(self_verifying)\n", 'C17.5')
+M('C17', 'soundness-cached-on-key', PGP, "                subkey_issues = self.check_soundness(self_verifying)\n",
+  "                if getattr(self, '_soundness', None) is None:\n                    self._soundness = self.check_soundness(self_verifying)\n                subkey_issues = self._soundness\n", 'C17.5')
+M('C17', 'branch-short-circuit-on-primitives', PGP, "                if issues and issues.causes_signature_verify_to_fail:",
+  "                if signature_issues and issues.causes_signature_verify_to_fail:", 'C17.5')
+M('C17', 'expired-cached', PGP, _EXPIRED,
+  "        if getattr(self, '_expired', None) is None:\n            expires = self.expires_at\n            self._expired = expires is not None and expires <= datetime.now(timezone.utc)\n        return self._expired", 'C17.5')
+M('C17', 'expired-skipped-when-self-verifying-default', PGP, "    def check_management(self, self_verifying=False):\n        res = self.self_verified\n        if self.is_expired:",
+  "    def check_management(self, self_verifying=True):\n        res = self.self_verified\n        if self.is_expired and not self_verifying:", 'C17.5')
+M('C01', 'verified-short-circuit-on-keyid', PGP, "                    verified = self._key.verify(sig.hashdata(subj), sig.__sig__, getattr(hashes, sig.hash_algorithm.name)())",
+  "                    verified = sig.signer == self.fingerprint.keyid or self._key.verify(sig.hashdata(subj), sig.__sig__, getattr(hashes, sig.hash_algorithm.name)())", 'C01.2')
+M('C01', 'hashdata-cached-on-signature', PGP, "                    verified = self._key.verify(sig.hashdata(subj), sig.__sig__, getattr(hashes, sig.hash_algorithm.name)())",
+  "                    if getattr(sig, '_hashed', None) is None:\n                        sig._hashed = sig.hashdata(subj)\n                    verified = self._key.verify(sig._hashed, sig.__sig__, getattr(hashes, sig.hash_algorithm.name)())", 'C01.2')
+M('C01', 'verdict-or-ok', PGP, _WRONGSIG_REC,
+  "                    sigv.add_sigsubj(sig, self, subj, (not verified and SecurityIssues.WrongSig) or SecurityIssues.OK)".replace("(not verified and SecurityIssues.WrongSig) or SecurityIssues.OK", "(verified and SecurityIssues.WrongSig) or SecurityIssues.OK"), 'C01.2')
+M('C01', 'material-handler-tuple', FL, _DSA_VERIFY.replace("        return True", "        return True"),
+  _DSA_VERIFY.replace("except InvalidSignature:\n            return False", "except (InvalidSignature, TypeError, ValueError):\n            return False"), 'C01.3')
+M('C01', 'material-result-cached', FL, _DSA_VERIFY,
+  "        if getattr(self, '_verified_ok', False):\n            return True\n        try:\n            self.__pubkey__().verify(sigbytes, subj, hash_alg)\n        except InvalidSignature:\n            return False\n        self._verified_ok = True\n        return True", 'C01.3')
+M('C01', 'material-empty-subject-shortcut', FL, _DSA_VERIFY,
+  "        try:\n            subj and self.__pubkey__().verify(sigbytes, subj, hash_alg)\n        except InvalidSignature:\n            return False\n        return True", 'C01.3')
+# ---- C01.5 (header octets reach the trailer through injective stores)
+_PUBALG_SET = "        self._pubalg = PubKeyAlgorithm(val)\n\n        sigs = {"
+T('C01', 'twin-pubalg-setter-temp', PK, _PUBALG_SET, "        alg = PubKeyAlgorithm(val)\n        self._pubalg = alg\n\n        sigs = {")
+M('C01', 'pubalg-rsa-aliases-folded', PK, _PUBALG_SET,
+  "        val = PubKeyAlgorithm(val)\n        if val in {PubKeyAlgorithm.RSAEncrypt, PubKeyAlgorithm.RSASign}:\n            val = PubKeyAlgorithm.RSAEncryptOrSign\n        self._pubalg = val\n\n        sigs = {", 'C01.5')
+M('C01', 'pubalg-mapping-with-default', PK, _PUBALG_SET,
+  "        self._pubalg = {int(a): a for a in PubKeyAlgorithm}.get(val, PubKeyAlgorithm.RSAEncryptOrSign)\n\n        sigs = {", 'C01.5')
+M('C01', 'halg-unknown-folded', PK, "            self._halg = HashAlgorithm(val)\n\n        except ValueError:  # pragma: no cover\n            self._halg = val\n\n    @property\n    def signature(self):",
+  "            self._halg = HashAlgorithm(val)\n\n        except ValueError:  # pragma: no cover\n            self._halg = HashAlgorithm.Invalid\n\n    @property\n    def signature(self):", 'C01.5')
+M('C01', 'sigtype-high-bit-masked', PK, "        self._sigtype = SignatureType(val)\n\n    @sdproperty\n    def pubalg(self):\n        return self._pubalg\n\n    @pubalg.register(int)\n    @pubalg.register(PubKeyAlgorithm)\n    def pubalg_int(self, val):\n        self._pubalg = PubKeyAlgorithm(val)\n\n        sigs",
+  "        self._sigtype = SignatureType(val & 0x7F)\n\n    @sdproperty\n    def pubalg(self):\n        return self._pubalg\n\n    @pubalg.register(int)\n    @pubalg.register(PubKeyAlgorithm)\n    def pubalg_int(self, val):\n        self._pubalg = PubKeyAlgorithm(val)\n\n        sigs", 'C01.5')
+M('C01', 'key-algorithm-getter-normalises', PGP, "        return self._signature.pubalg\n", "        alg = self._signature.pubalg\n        return PubKeyAlgorithm.RSAEncryptOrSign if alg in {PubKeyAlgorithm.RSAEncrypt, PubKeyAlgorithm.RSASign} else alg\n", 'C01.5')
+M('C01', 'parse-halg-before-pubalg', PK, "        self.sigtype = packet[0]\n        del packet[0]\n\n        self.pubalg = packet[0]\n        del packet[0]\n\n        self.halg = packet[0]\n        del packet[0]\n\n        self.subpackets.parse(packet)",
+  "        self.sigtype = packet[0]\n        del packet[0]\n\n        self.halg = packet[0]\n        del packet[0]\n\n        self.pubalg = packet[0]\n        del packet[0]\n\n        self.subpackets.parse(packet)", 'C01.5')
+
 # ---- further spellings of the same functions (generalisation guards)
 T('C17', 'twin-pred-len-list', CO, _PRED,
   "        hits = [f for f in (SecurityIssues.WrongSig, SecurityIssues.Expired, SecurityIssues.Disabled, SecurityIssues.Invalid, SecurityIssues.NoSelfSignature) if f & self]\n        return len(hits) > 0")
@@ -198,7 +266,6 @@ T('C01', 'twin-key-alias', PGP, "                    verified = self._key.verify
   "                    keypkt = self._key\n                    verified = keypkt.verify(sig.hashdata(subj), sig.__sig__, getattr(hashes, sig.hash_algorithm.name)())")
 T('C01', 'twin-subkey-alias', PGP, "                sigv &= self.subkeys[sig.signer].verify(subj, sig)",
   "                signing_subkey = self.subkeys[sig.signer]\n                sigv &= signing_subkey.verify(subj, sig)")
-_EXPIRED = "        expires = self.expires_at\n        if expires is not None:\n            return expires <= datetime.now(timezone.utc)\n\n        return False"
 T('C17', 'twin-expired-now-first', PGP, "            return expires <= datetime.now(timezone.utc)", "            now = datetime.now(timezone.utc)\n            return now >= expires")
 T('C17', 'twin-expired-guard-first', PGP, _EXPIRED,
   "        deadline = self.expires_at\n        if deadline is None:\n            return False\n\n        return not deadline > datetime.now(timezone.utc)")
